@@ -6,6 +6,8 @@
 
 package py
 
+import "runtime"
+
 // A python Property object
 type Property struct {
 	Fget func(self Object) (Object, error)
@@ -21,24 +23,41 @@ func (o *Property) Type() *Type {
 	return PropertyType
 }
 
-func (p *Property) M__get__(instance, owner Object) (Object, error) {
+// catchBadInstance turns the failed type assertion of a getter, setter
+// or deleter which was handed an instance of another type (a property
+// of one type read through an object of another) into a TypeError
+func catchBadInstance(res *Object, err *error) {
+	if r := recover(); r != nil {
+		if _, ok := r.(*runtime.TypeAssertionError); ok {
+			*res = nil
+			*err = ExceptionNewf(TypeError, "descriptor doesn't apply to this object")
+			return
+		}
+		panic(r)
+	}
+}
+
+func (p *Property) M__get__(instance, owner Object) (res Object, err error) {
 	if p.Fget == nil {
 		return nil, ExceptionNewf(AttributeError, "can't get attribute")
 	}
+	defer catchBadInstance(&res, &err)
 	return p.Fget(instance)
 }
 
-func (p *Property) M__set__(instance, value Object) (Object, error) {
+func (p *Property) M__set__(instance, value Object) (res Object, err error) {
 	if p.Fset == nil {
 		return nil, ExceptionNewf(AttributeError, "can't set attribute")
 	}
+	defer catchBadInstance(&res, &err)
 	return None, p.Fset(instance, value)
 }
 
-func (p *Property) M__delete__(instance Object) (Object, error) {
+func (p *Property) M__delete__(instance Object) (res Object, err error) {
 	if p.Fdel == nil {
 		return nil, ExceptionNewf(AttributeError, "can't delete attribute")
 	}
+	defer catchBadInstance(&res, &err)
 	return None, p.Fdel(instance)
 }
 
